@@ -45,18 +45,18 @@ LEVEL = {
 # raw calls of user objects that are correct by documented contract (unit -> reason)
 BY_CONTRACT = {
     "_core.Awaitify.__call__": "the awaitify wrapper itself: inspects the result of the first call",
-    "_core.force_async.async_wrapped": "coroutine wrapper built by awaitify for callables known to be synchronous",
+    "_core.force_async": "coroutine wrapper built by awaitify for callables known to be synchronous",
     "_lrucache.UncachedLRUAsyncCallable.__call__": "lru_cache wraps callables documented to return an awaitable",
     "_lrucache.MemoizedLRUAsyncCallable.__call__": "lru_cache wraps callables documented to return an awaitable",
     "_lrucache.CachedLRUAsyncCallable.__call__": "lru_cache wraps callables documented to return an awaitable",
     "asynctools.apply": "apply's function is documented synchronous; only its arguments are awaited",
-    "asynctools.sync.async_wrapped": "sync() implements the same rule inline (isinstance(result, Awaitable))",
-    "contextlib.ContextDecorator.__call__.inner": "decorated function is a coroutine function by contract",
+    "asynctools.sync": "sync() implements the same rule inline (isinstance(result, Awaitable))",
+    "contextlib.ContextDecorator.__call__": "decorated function is a coroutine function by contract",
     "contextlib._AsyncGeneratorContextManager.__init__": "contextmanager wraps an async generator function by contract",
     "contextlib.ExitStack.__aexit__": "registered exits are awaitified, or __aexit__ methods documented to be awaitable",
     "functools._FutureCachedPropertyValue._get_attribute": "cached_property accepts coroutine functions only (checked at decoration)",
     "functools.CachedProperty.__get__": "instantiates the user's lock *type* (a synchronous constructor)",
-    "_utility.public_module.decorator": "string method, not a user callable",
+    "_utility.public_module": "string method, not a user callable",
 }
 PROTOCOL_METHODS = {"__anext__", "__aiter__", "aclose", "athrow", "asend", "__aenter__", "__aexit__", "__enter__",
                     "__exit__", "__iter__", "__next__"}
@@ -183,8 +183,11 @@ def r03_1(ctx) -> None:
                    (a[0] == "usermeth" and a[2] not in PROTOCOL_METHODS)]
             raw = [a for a in raw if not _container_param(ctx, a)]
             if raw:
-                if u.short in BY_CONTRACT:
-                    ctx.ok("R03.1", u, f"raw call `{norm(call.func)}(...)` is by contract: {BY_CONTRACT[u.short]}")
+                outer = u
+                while outer.parent is not None:
+                    outer = outer.parent  # nested wrappers are covered by their enclosing definition
+                if outer.short in BY_CONTRACT:
+                    ctx.ok("R03.1", u, f"raw call `{norm(call.func)}(...)` is by contract: {BY_CONTRACT[outer.short]}")
                 else:
                     ok = True
                     for a in raw:
